@@ -176,7 +176,7 @@ fn c09_compose(lo: i64, hi: i64, seed: u64, out: &mut Out) {
   let mut rng = seed ^ 0x9090 ^ ((lo as u64) << 14);
   for y in lo..=hi {
     if y < 2 || y > 9997 || reform(y) { continue; }
-    for _ in 0..6 {
+    for _ in 0..crate::mult(6, 40) {
       let dates = dates_of_year(y);
       let (yy, m, d) = dates[(lcg(&mut rng) as usize) % dates.len()];
       let h = (lcg(&mut rng) % 24) as usize;
@@ -202,7 +202,7 @@ fn c09_inverse(lo: i64, hi: i64, seed: u64, out: &mut Out) {
   let mut rng = seed ^ 0x1991 ^ ((lo as u64) << 12);
   for y in lo..=hi {
     if y < 62 || y > 9870 || reform(y) { continue; }
-    if (y + seed as i64) % 5 != 0 { continue; }
+    if (y + seed as i64) % (crate::mult(5, 1) as i64) != 0 { continue; }
     let dates = dates_of_year(y);
     let (yy, m, d) = dates[(lcg(&mut rng) as usize) % dates.len()];
     let h = (lcg(&mut rng) % 24) as usize;
@@ -433,7 +433,7 @@ fn c16_child_limit(lo: i64, hi: i64, seed: u64, out: &mut Out) {
     if y < 2 || y > 9950 || (y >= 1570 && y <= 1582) { continue; } // a limit ending in October 1582 is a known finding (excluded)
     let dates = dates_of_year(y);
     let mut births: Vec<SolarTime> = vec![];
-    for _ in 0..3 { let (yy, m, d) = dates[(lcg(&mut rng) as usize) % dates.len()]; births.push(SolarTime::from_ymd_hms(yy as isize, m as usize, d as usize, (lcg(&mut rng) % 24) as usize, (lcg(&mut rng) % 60) as usize, (lcg(&mut rng) % 60) as usize)); }
+    for _ in 0..crate::mult(3, 20) { let (yy, m, d) = dates[(lcg(&mut rng) as usize) % dates.len()]; births.push(SolarTime::from_ymd_hms(yy as isize, m as usize, d as usize, (lcg(&mut rng) % 24) as usize, (lcg(&mut rng) % 60) as usize, (lcg(&mut rng) % 60) as usize)); }
     // near a Jie instant and on a month end
     let jie = SolarTerm::from_index(y as isize, (1 + 2 * (lcg(&mut rng) % 12)) as isize).get_julian_day().get_solar_time();
     births.push(jie.next(-30)); births.push(jie.next(30)); births.push(jie);
@@ -832,7 +832,7 @@ fn c10_history(lo: i64, hi: i64, seed: u64, out: &mut Out) {
     }
   }
   // long histories: random months incl. leap months, each answer == cold answer
-  for _ in 0..((hi - lo + 1) * 40) {
+  for _ in 0..((hi - lo + 1) * crate::mult(40, 400) as i64) {
     out.evaluations += 1;
     let y = (lcg(&mut rng) % 10000) as isize;
     let leap = LunarYear::from_year(y).get_leap_month() as isize;
